@@ -84,7 +84,13 @@ def _check_symmetric(w, A, row, col):
     i, j = IV(row.sort), IV(col.sort)
     e1 = K.subst(A.expr, {row: i, col: j})
     e2 = K.rename_bound(K.subst(A.expr, {row: j, col: i}))
-    return not K.normalize(K.sub(e1, e2), w.ctx)
+    d = K.sub(e1, e2)
+    if not K.normalize(d, w.ctx):
+        return True
+    try:
+        return not K.residual(w._apply_ld_rules(d), w.ctx)
+    except Exception:  # noqa
+        return False
 
 
 def _block_logdet(w, A):
@@ -125,7 +131,85 @@ def _block_logdet(w, A):
     return best[1]
 
 
-def intern_matrix(w, A, want_inverse):
+def _peek_cost(w, B):
+    """how expensive is the inverse of (non-block) matrix B for the kernel: 0 if it is already known (partner, interned
+    inverse, diagonal, registered family), else 1 + number of terms"""
+    try:
+        row, col = _matrix_axes(B)
+    except ScalarMatrix:
+        return 0
+    except BlockMatrix:
+        return 10 ** 6
+    p = K.normalize(B.expr, w.ctx)
+    sa = _single_atom(p)
+    if sa is not None and (sa[1][1] in w.partners or sa[1][1].startswith("Inv")):
+        return 0
+    if _diagonal_entry(p, row, col) is not None:
+        return 0
+    try:
+        key, _, _ = matrix_key(w, B)
+    except Exception:  # noqa
+        return 10 ** 6
+    rec = w.inv_registry.get(key)
+    if rec is not None and rec.get("registered"):
+        return 0
+    return 1 + len(p)
+
+
+def _block_inverse(w, A):
+    """GtvLemmas.inv_fromBlocks11 / 22: inverse of [[A,B],[C,D]] through the Schur complement of the pivot block
+         pivot 11:  Si = (D - C Ai B)^-1,  [[Ai + Ai B Si C Ai, -Ai B Si], [-Si C Ai, Si]]
+         pivot 22:  Si = (A - B Di C)^-1,  [[Si, -Si B Di], [-Di C Si, Di + Di C Si B Di]]
+    and ln det = ln det(pivot) + ln det(Schur) (det_fromBlocks11 / 22).  Both pivots give THE inverse (it is unique), the
+    pivot whose own inverse is already known to the kernel is taken."""
+    row, col = A.axes[-2], A.axes[-1]
+    if not (isinstance(row, S.DSum) and isinstance(col, S.DSum) and len(row.parts) == 2 and row.sorts() == col.sorts()
+            and not any(isinstance(a_, S.DSum) for a_ in A.axes[:-2])):
+        raise S.ShimUnsupported("inverse of a block matrix that is not 2x2 blocks")
+    n = A.ndim
+
+    def blk(i, j):
+        return S._getitem(S._getitem(A, (Ellipsis, S.IndexArr("parts", parts=[i], size=None), slice(None))),
+                          (Ellipsis, S.IndexArr("parts", parts=[j], size=None)))
+    A11, A12, A21, A22 = blk(0, 0), blk(0, 1), blk(1, 0), blk(1, 1)
+    L = "abcdefgh"[: n - 2]
+    c11, c22 = _peek_cost(w, A11.fresh_copy()), _peek_cost(w, A22.fresh_copy())
+    pivot = 11 if c11 <= c22 else 22
+
+    def mm(*Ms):
+        letters = "ijklmnop"
+        spec = ",".join(f"{L}{letters[k]}{letters[k + 1]}" for k in range(len(Ms))) + f"->{L}{letters[0]}{letters[len(Ms)]}"
+        return S.einsum(spec, *Ms)
+    def symm(P, Q):
+        return w._equal(P, S.swapaxes(Q, -1, -2))[0]
+    # GtvLemmas.schur_symm: the Schur complement of a symmetric block matrix w.r.t. a symmetric pivot is symmetric
+    sym_all = symm(A11, A11) and symm(A22, A22) and symm(A12, A21)
+    if sym_all:
+        w.hints_used.append("GtvLemmas.schur_symm")
+
+    def attempt(pivot):
+        if pivot == 11:
+            Pi, ldP = intern_matrix(w, A11.fresh_copy(), True)
+            Sc = A22 - mm(A21, Pi, A12)
+            Si, ldS = intern_matrix(w, Sc.fresh_copy(), True, assume_symmetric=sym_all)
+            return (Pi + mm(Pi, A12, Si, A21, Pi), -mm(Pi, A12, Si), -mm(Si, A21, Pi), Si, ldP + ldS)
+        Pi, ldP = intern_matrix(w, A22.fresh_copy(), True)
+        Sc = A11 - mm(A12, Pi, A21)
+        Si, ldS = intern_matrix(w, Sc.fresh_copy(), True, assume_symmetric=sym_all)
+        return (Si, -mm(Si, A12, Pi), -mm(Pi, A21, Si), Pi + mm(Pi, A21, Si, A12, Pi), ldP + ldS)
+    try:
+        X11, X12, X21, X22, ld = attempt(pivot)
+    except S.ShimUnsupported:
+        # the Schur complement of the cheaper pivot is not provably symmetric for the kernel: take the other pivot
+        pivot = 33 - pivot
+        X11, X12, X21, X22, ld = attempt(pivot)
+    X = S.concatenate([S.concatenate([X11, X12], axis=-1), S.concatenate([X21, X22], axis=-1)], axis=-2)
+    w.hints_used.append(f"GtvLemmas.inv_fromBlocks{pivot}")
+    w.hints_used.append(f"GtvLemmas.det_fromBlocks{pivot}")
+    return X.fresh_copy(), ld.fresh_copy()
+
+
+def intern_matrix(w, A, want_inverse, assume_symmetric=False):
     """returns (inv SymArr or None, logdet SymArr) for matrix array A (already a fresh copy)"""
     ctx = w.ctx
     try:
@@ -150,20 +234,7 @@ def intern_matrix(w, A, want_inverse):
             w.hints_used.append("2x2 adjugate inverse")
             return inv, ld.fresh_copy()
         if want_inverse:
-            # inverse of a block matrix: opaque block atoms WITHOUT relations (nothing can be proved about them; the
-            # caller's clauses on this inverse stay undischarged and must be listed as not covered)
-            n = len(w.__dict__.setdefault("opaque_block_inverses", []))
-            w.opaque_block_inverses.append(A)
-            batch = [c for a in A.axes[:-2] for c in a.comps]
-            blocks = {}
-            for key in A.keys():
-                sa = A.simple_axes(key)
-                idx = batch + list(sa[-2].comps) + list(sa[-1].comps)
-                blocks[key] = K.atom(f"InvB{n}_{key[0]}{key[1]}", *idx)
-            inv = S.SymArr(A.axes, blocks).fresh_copy()
-            ld = S.SymArr(A.axes[:-2], {(): K.atom(f"LDB{n}", *batch)}).fresh_copy()
-            w.assumptions.add("inverse / log-determinant of a block matrix returned by the invert_matrix contract as opaque atoms (no obligation about them is discharged)")
-            return inv, ld
+            return _block_inverse(w, A)
         return None, _block_logdet(w, A)
     # batch-index abstraction: a matrix family indexed through index maps (slices, picks, scatter sources) is the
     # instantiation of the family indexed by plain batch variables; intern the family and instantiate its atoms
@@ -182,7 +253,7 @@ def intern_matrix(w, A, want_inverse):
         Aexpr2 = K.map_indices(A.expr, _abs)
         if abst:
             inner = S.SymArr([S.Axis([u]) for (_, u) in abst.values()] + [a for a in A.axes], {(): Aexpr2})
-            inv_f, ld_f = intern_matrix(w, inner, want_inverse)
+            inv_f, ld_f = intern_matrix(w, inner, want_inverse, assume_symmetric)
             # instantiate: substitute the abstraction variables back by their terms
             def inst(arr):
                 if arr is None:
@@ -282,9 +353,11 @@ def intern_matrix(w, A, want_inverse):
     if rec is None:
         n = len(w.inv_registry)
         rec = dict(n=n, inv=f"Inv{n}", ld=f"LD{n}", registered=False, nb=len(occurring),
-                   symmetric=_check_symmetric(w, A, row, col), X=A, terms=len(p))
+                   symmetric=assume_symmetric or _check_symmetric(w, A, row, col), X=A, terms=len(p))
         w.inv_registry[key] = rec
         w.assumed_pd.append(rec)
+    if assume_symmetric:
+        rec["symmetric"] = True
     if want_inverse and not rec["registered"]:
         if not rec["symmetric"]:
             raise S.ShimUnsupported("inverse of a matrix that is not provably symmetric")
